@@ -12,7 +12,7 @@ import json, os, re
 from collections import Counter
 
 PKG = "vcr/verifier"
-HARNESS = ["vcr/verifier/zz_verif_c01_test.go", "vcr/verifier/zz_verif_c01x_test.go"]
+HARNESS = ["vcr/verifier/zz_verif_c01_test.go", "vcr/verifier/zz_verif_c01x_test.go", "auth/api/iam/zz_verif_c01_export.go"]
 PKG2 = "vcr/test"
 HARNESS2 = ["vcr/test/zz_verif_c01s_test.go"]
 PKG3 = "vcr/credential"
@@ -46,7 +46,10 @@ REQUIRED = ["check_order_irrelevant_for_accept", "valid_only_if", "key_is_from_t
             # deepening round 3: revocation lookup (leia store read -> IsRevoked -> Verify) inside the model
             "isRevoked_no_iff", "isRevoked_error_iff", "getRevocations_found_iff", "getRevocation_never_panics",
             "reported_valid_only_if_store_answered_empty", "store_read_fault_is_never_valid", "any_stored_document_blocks_validity",
-            "fact_revocation_lookup_flow"]
+            "fact_revocation_lookup_flow",
+            # deepening round 3: S2S token handler's presentation checks (auth/api/iam) inside the model
+            "presenterIsCredentialSubject_some_iff", "validated_signer_is_subject_of_every_credential", "s2s_validity_is_bounded",
+            "s2s_envelope_is_by_one_subject", "s2s_refuses_foreign_credential", "fact_s2s_presentation_checks"]
 
 SCAN_KINDS = ("time", "flags", "trust", "revoked")
 PROOF_OPTS = ("shape", "typ", "vm", "purpose", "created", "expires", "domain", "challenge", "nonce")
@@ -383,7 +386,7 @@ def run_subject_legs(ctx, facts):
 def run(ctx):
     ctx.level = "proof (decision logic) + conditional tamper-evidence; PARTIAL by construction on canonicalisation and cryptography (contracts)"
     facts = ctx.facts()
-    thms = ctx.build_and_audit(["NutsProofs.Props.C01", "NutsProofs.Props.C01Subject", "NutsProofs.Props.C01CaseVariant", "NutsProofs.Props.C01Status", "NutsProofs.Props.C01RevStore"])
+    thms = ctx.build_and_audit(["NutsProofs.Props.C01", "NutsProofs.Props.C01Subject", "NutsProofs.Props.C01CaseVariant", "NutsProofs.Props.C01Status", "NutsProofs.Props.C01RevStore", "NutsProofs.Props.C01Iam"])
     for r in REQUIRED:
         if not any(t.endswith("Props." + r) for t in thms):
             ctx.oblige("thm-present:" + r, False, "theorem missing or its module does not build")
@@ -612,6 +615,53 @@ def run(ctx):
                               "revocation-lookup_" + why + ".jsonl", ops_raw[i] + "\n")
     ctx.cov["revocation_lookup_ops"] = dict(Counter(impl[i] for i, op in enumerate(ops) if op.get("op") == "revstore"))
     ctx.oblige("oracle:not-revoked-only-when-the-store-answered-with-no-document(impl)", rs_bad == 0 and (n_rs > 0 or bool(ctx.replay)), f"{rs_bad} wrong of {n_rs}")
+
+    # deepening round 3: the S2S token handler's first loop (auth/api/iam).  Clause: a presentation is taken as "by subject d" only if its
+    # signer is d and d is the subject of EVERY credential it carries, and — RFC021 — d is the same for all presentations of the envelope;
+    # its signed validity (created .. expires) is present and at most 5 s.  Recomputed from go-did's view of the document, not from labels.
+    s2_bad = n_s2 = 0
+    seen_s2 = set()
+    for i, op in enumerate(ops):
+        if op.get("op") != "s2s-vp":
+            continue
+        n_s2 += 1
+        d = op.get("doc") or {}
+        m = re.match(r"validity=(\S+) signer=(\S+)$", impl[i])
+        why = []
+        if not m:
+            why.append("handler-check-panics" if impl[i].startswith("panic") else "unreadable-outcome")
+        else:
+            validity, got = m.groups()
+            is_jwt = (d.get("fmt") or "").startswith("jwt")
+            kid = ((d.get("jwt") or {}).get("kid") if is_jwt else (d.get("proof") or {}).get("vm")) or ""
+            signer = (op.get("urls") or {}).get(kid)
+            if not got.startswith("err:"):
+                if got == "nil" or got != signer:
+                    why.append("accepted-subject-is-not-the-signer")
+                if any(sj != got for c in d.get("vcs") or [] for sj in (c.get("subjects") or [None])):
+                    why.append("accepted-although-signer-is-not-subject-of-every-credential")
+                if op.get("expected") not in ("", None, got):
+                    why.append("accepted-although-presentations-have-different-subjects")
+            elif op.get("label", "").split(":")[0] in ("s2s-same-subject", "s2s-empty-first", "s2s-too-long", "s2s-too-long-second", "s2s-no-expiry"):
+                why.append("refuses-presentation-by-the-one-subject")
+            if is_jwt:
+                j = d.get("jwt") or {}
+                cr, ex = (j.get("nbf") if j.get("nbf") is not None else j.get("iat")), j.get("exp")
+            else:
+                pr = d.get("proof") or {}
+                cr, ex = pr.get("created"), pr.get("expires")
+            if validity == "ok" and (cr is None or ex is None or ex - cr > 5000):
+                why.append("validity-accepted-although-" + ("a-date-is-missing" if cr is None or ex is None else "longer-than-5s"))
+            if validity != "ok" and cr is not None and ex is not None and 0 <= ex - cr <= 5000:
+                why.append("validity-refused-although-within-5s")
+        if why:
+            s2_bad += 1
+            if why[0] not in seen_s2:
+                seen_s2.add(why[0])
+                ctx.violation("C01:s2s-presentation-check:" + why[0] + ":" + (d.get("fmt") or ""), f"{op.get('label')} (expected subject `{op.get('expected')}`): {impl[i]} although: {', '.join(why)}",
+                              "s2s-presentation_" + why[0] + ".jsonl", ops_raw[i] + "\n")
+    ctx.cov["s2s_presentation_ops"] = dict(Counter(re.sub(r"signer=did:\S+", "signer=<did>", impl[i]) for i, op in enumerate(ops) if op.get("op") == "s2s-vp"))
+    ctx.oblige("oracle:s2s-envelope-is-by-one-subject-of-every-credential-and-short-lived(impl)", s2_bad == 0 and (n_s2 > 0 or bool(ctx.replay)), f"{s2_bad} wrong of {n_s2}")
 
     # revocation is permanent from the verifier's point of view: once a verification of a document reported "revoked", every later
     # verification of the same document on that node reports revoked (refreshes of a status list must not resurrect it)
